@@ -329,6 +329,49 @@ def build_names(desc):
     return top, ports, {}
 
 
+def fam_aggregates(tier):
+    """signals of struct / array / enumeration shapes (which get per-field wires `name.field`, `name[i]`), several of them with
+    the SAME name in one module or in sibling instances of one component, next to plain signals named like a field wire"""
+    names = ["pkt", "pkt", "pkt.a", "q"] if tier == "quick" else ["pkt", "pkt", "pkt.a", "pkt[0]", "pkt$1", "q"]
+    for sn in itertools.product(names, repeat=3):
+        for kinds in (("struct", "struct", "plain"), ("struct", "array", "struct"), ("array", "array", "enum"), ("struct", "plain", "plain")):
+            for where in ("one-module", "two-instances"):
+                yield ("agg", sn, kinds, where)
+
+
+def build_aggregates(desc):
+    from amaranth.hdl import Signal, Module, signed
+    from amaranth.lib import data, enum as aenum
+    _, sn, kinds, where = desc
+
+    class E(aenum.Enum, shape=2):
+        X = 0
+        Y = 2
+    shapes = {"struct": data.StructLayout({"a": 2, "b": signed(2)}), "array": data.ArrayLayout(2, 2), "enum": E, "plain": 4}
+
+    def mk(kind, name):
+        s = Signal(shapes[kind], name=name)
+        return s, (s.as_value() if hasattr(s, "as_value") else s)
+    sigs = [mk(k, n) for k, n in zip(kinds, sn)]
+    x, o = Signal(4, name="x"), Signal(4, name="o")
+    top = Module()
+    if where == "one-module":
+        acc = x
+        for _s, v in sigs:
+            top.d.comb += v.eq(acc)
+            acc = v + 1
+        top.d.comb += o.eq(acc)
+    else:
+        acc = x
+        for i, (_s, v) in enumerate(sigs):
+            sub = Module()
+            sub.d.comb += v.eq(acc)
+            top.submodules[f"u{i % 2}" if i < 2 else "w"] = sub if i != 1 else sub
+            acc = v + 1
+        top.d.comb += o.eq(acc ^ sigs[0][1])
+    return top, [x, o], {}
+
+
 def fam_shapes(tier):
     for w in (0, 1, 3):
         for private in (False, True):
@@ -646,9 +689,9 @@ def build_odd_names(desc):
 FAMILIES = {
     "names": (fam_names, build_names), "shapes": (fam_shapes, build_shapes), "empty": (fam_empty, build_empty),
     "inst": (fam_instances, build_instances), "mem": (fam_memories, build_memories), "io": (fam_io, build_io),
-    "odd": (fam_odd_names, build_odd_names),
+    "odd": (fam_odd_names, build_odd_names), "agg": (fam_aggregates, build_aggregates),
 }
-CHUNK = {"names": 96, "shapes": 12, "empty": 64, "inst": 8, "mem": 9, "io": 8, "odd": 1}
+CHUNK = {"names": 96, "shapes": 12, "empty": 64, "inst": 8, "mem": 9, "io": 8, "odd": 1, "agg": 64}
 
 
 def _instance_violations(text, expect):
